@@ -36,6 +36,7 @@ func (c *ocodeClient) Emit(line string) error {
 	log.Printf("debug: [ocode_client] emit %s\n", line)
 	ocode, err := parseLineToOcode(line)
 	if err != nil {
+		log.Printf("error: [ocode_client] cannot emit %q: %v", line, err)
 		return err
 	}
 	c.Ocodes = append(c.Ocodes, ocode)
